@@ -605,7 +605,8 @@ class TopWriter {
             return false;
         await this.subwriter.write(record);
         this.NW += 1;
-        return true;
+        // Report "stop" together with the last allowed record, otherwise the main loop keeps reading input until one more output candidate shows up.
+        return this.top_count === null || this.NW < this.top_count;
     }
 
     async finish() {
